@@ -350,6 +350,21 @@ impl Prop for C09 {
                         }
                         out.nontrivial.insert(hash64(&format!("lit:{}:{}", key, text.len())));
                     }
+                    // the same value written two ways, one assigned over the other: the variable
+                    // holds the digits and scale written LAST (equal numbers are not "the same")
+                    let sp = spellings(m, s);
+                    if let (Some(first), Some(last)) = (sp.first(), sp.last()) {
+                        if (first.1, first.2) != (last.1, last.2) {
+                            for (p, q) in [(first, last), (last, first)] {
+                                out.evals += 1;
+                                let prog = format!("a = {} ; a = {} ; a", p.0, q.0);
+                                match engine_exec(&prog, &[]).result {
+                                    Res::Ok(Value::Number(d)) if d.mantissa().unsigned_abs() == q.1 && d.scale() == q.2 => out.count("validated", 1),
+                                    other => out.fail("literal:reassigned-equal-value:not-what-was-written-last", format!("literals|{}", prog), format!("expected mantissa {} scale {}, got {}", q.1, q.2, other.map_ok_show())),
+                                }
+                            }
+                        }
+                    }
                     if i == a {
                         // malformed literals (once per worker is plenty; they are few)
                         for t in invalid_literals() {
